@@ -49,6 +49,7 @@ pub fn gen_spec(ch: &mut Ch) -> WorldSpec {
                 let mut t = default_transfer(1, path.clone(), TKind::Plain { body_id: 0, payload_len: 0 });
                 t.token_len = token_len;
                 t.token_vary = ch.chance(1, 6, "t.tokvary");
+                t.b2_more = ch.chance(1, 10, "t.b2more");
                 t.con = con;
                 t.extra = extra;
                 t.pre_gap_ns = ch.below(4, "t.pregap") * 50 * MS;
